@@ -278,6 +278,8 @@ def check_property(prop, tier='quick', seed=0):
     budget = 20 if tier == 'quick' else 240
     jobs = []
     for r in results:
+        if not r.get('native', True):
+            continue
         s = int(hashlib.sha1(('%s/%s/%d' % (r['module'], r['proof'], seed))
                              .encode()).hexdigest()[:8], 16)
         jobs.append((r['module'], r['proof'], s, n_samples, budget))
